@@ -93,7 +93,7 @@ PROPS = {
     "C16": [S("C16"), K("c16")],
     "C17": [K("c17")],
     "C18": [S("C18"), K("c18")],
-    "C19": [M("C19"), K("c19")],
+    "C19": [M("C19"), S("C19"), K("c19")],
 }
 # K steps can be switched off for experiments (VERIF_SKIP_K=1); registered commands never set it
 if os.environ.get("VERIF_SKIP_K") == "1":
